@@ -111,10 +111,10 @@ class StoreDomain(ExactCollections, ReplyDomain):
         self.readers = set(readers)
         self.base = prog.module("pymemcache/client/base.py")
 
-    global_keys = ("nread", "overread", "nsend", "imprecise")
+    global_keys = ("#nread", "#overread", "#nsend", "#imprecise")
 
     def mark_imprecise(self, state, node):
-        return state.set("imprecise", 1)
+        return state.set("#imprecise", 1)
 
     def name_load(self, name, state, node=None):
         if state.has(name):
@@ -162,23 +162,24 @@ class StoreDomain(ExactCollections, ReplyDomain):
         if fval == Opaque("reader") or (name in ("partial", "functools.partial") and args and args[0] == Opaque("reader")):
             if name in ("partial", "functools.partial"):
                 return [("ok", Opaque("reader"), state)]
-            i = state.get("nread", 0)
+            i = state.get("#nread", 0)
             if i >= len(self.replies):
                 # the server sends nothing further: the read blocks / times out
-                return [("exc", Exc(ORD, "socket.timeout", node.lineno), state.set("overread", 1))]
+                return [("exc", Exc(ORD, "socket.timeout", node.lineno), state.set("#overread", 1))]
             if self.replies[i] == spec.CLOSE:
-                return [("exc", Exc(ORD, "MemcacheUnexpectedCloseError", node.lineno), state.set("nread", i + 1))]
+                return [("exc", Exc(ORD, "MemcacheUnexpectedCloseError", node.lineno), state.set("#nread", i + 1))]
             if len(args) >= 3 and isinstance(args[2], Const) and isinstance(args[2].v, int) and not isinstance(args[2].v, bool) and args[2].v != len(self.replies[i]):
                 # a data block read with another size than the VALUE line announced: the stream is out of step
                 return [("exc", Exc(ORD, "WrongBlockSize(%d for a %d byte block)" % (args[2].v, len(self.replies[i])), node.lineno), state)]
-            return [("ok", TupleV((TOP, Const(self.replies[i]))), state.set("nread", i + 1))]
+            return [("ok", TupleV((TOP, Const(self.replies[i]))), state.set("#nread", i + 1))]
         if isinstance(node.func, ast.Attribute) and node.func.attr == "sendall":
-            return [("ok", NONE, state.set("nsend", min(3, state.get("nsend", 0) + 1)))]
+            return [("ok", NONE, state.set("#nsend", min(3, state.get("#nsend", 0) + 1)))]
         if name in ("self.close", "self.disconnect_all"):
             return [("ok", NONE, state)]
         if name == "self.check_key" and args and isinstance(args[0], Opaque) and args[0].tag.startswith("K"):
             # the wire form of the symbolic key K<i> is the token k<i>
-            return [("ok", Const(args[0].tag.lower().encode()), state)]
+            # (K1B is a second caller key with the same wire form as K1, like "k" and b"k")
+            return [("ok", Const(args[0].tag.lower().rstrip("b").encode()), state)]
         if name == "self._connect" and getattr(self, "fault", None) == "connect":
             return [("exc", Exc(ORD, "ConnectionRefusedError", node.lineno), state)]
         if name == "self.serde.deserialize" and getattr(self, "fault", None) == "deserialize":
@@ -220,7 +221,7 @@ def _show(v):
     return str(v)
 
 
-def script_eval(prog, mname, replies, nkeys=2, noreply=False, ignore_exc=False, full=False, oneshot=False, fault=None):
+def script_eval(prog, mname, replies, nkeys=2, noreply=False, ignore_exc=False, full=False, oneshot=False, fault=None, alias=False):
     """Evaluate any public wire method of Client end to end against a scripted sequence of reply lines / data blocks.
     -> (returned values, exception classes)"""
     f = prog.method("Client", mname)
@@ -230,6 +231,8 @@ def script_eval(prog, mname, replies, nkeys=2, noreply=False, ignore_exc=False, 
     dom.ignore_exc = ignore_exc
     dom.fault = fault  # None | 'connect' | 'send' | 'deserialize'
     ks = tuple(Opaque("K%d" % (i + 1)) for i in range(nkeys))
+    if alias:
+        ks = (Opaque("K1"), Opaque("K1B"))  # two distinct caller keys that are the same key on the wire
     env = {}
     for p in f.params:
         if p.name in ("self", "noreply"):
@@ -276,12 +279,12 @@ def judge(outs, kind, pred):
         if kind == "ret" and pred(v):
             good += 1
             continue
-        (vague if s.get("imprecise", 0) or has_top(v) else definite).append(("returns %s" % _show(v), t))
+        (vague if s.get("#imprecise", 0) or has_top(v) else definite).append(("returns %s" % _show(v), t))
     for s, e, t in excs:
         if kind == "noret" or (kind == "raise" and (pred is None or e.cls == pred)):
             good += 1
             continue
-        (vague if s.get("imprecise", 0) or e.cls in (None, "LookupError") else definite).append(("raises %s" % e.cls, t))
+        (vague if s.get("#imprecise", 0) or e.cls in (None, "LookupError") else definite).append(("raises %s" % e.cls, t))
     if not definite and not vague and not good and kind != "noret":
         definite.append(("has no outcome at all", ()))
     bad = definite or vague
@@ -334,6 +337,13 @@ def storage_rows(prog, r3, keying_only=False):
             want = TupleV(tuple(k for k, r in zip(ks, replies) if r == b"NOT_STORED"))
             st, got, w = judge(script_eval(prog, "set_many", replies, nkeys=n, full=True), "ret", lambda v: v == want)
             settle(r3, st, "Client.set_many(%d keys): replies %s -> failed keys %s" % (n, [r.decode() for r in replies], [k.tag for k in want.items]), "Client.set_many:replies:%s" % ",".join(r.decode() for r in replies), "Client.set_many with keys %s and replies %s %s; the documented result is the list of the keys that were not stored, %s" % ([k.tag for k in ks], [r.decode() for r in replies], got, [k.tag for k in want.items]), f, w)
+    # two caller keys that are one key on the wire ("k" and b"k"): two commands, two replies, two results
+    for replies in itertools.product((b"STORED", b"NOT_STORED"), repeat=2):
+        n_rows += 1
+        ks = (Opaque("K1"), Opaque("K1B"))
+        want = TupleV(tuple(k for k, r in zip(ks, replies) if r == b"NOT_STORED"))
+        st, got, w = judge(script_eval(prog, "set_many", replies, alias=True, full=True), "ret", lambda v: v == want)
+        settle(r3, st, "Client.set_many(two keys with the same wire form): replies %s -> failed keys %s" % ([r.decode() for r in replies], [k.tag for k in want.items]), "Client.set_many:same-wire-key:%s" % ",".join(r.decode() for r in replies), "Client.set_many with two caller keys that encode to the same wire key (e.g. 'k' and b'k') and replies %s %s; two commands are sent, so the documented result is %s" % ([r.decode() for r in replies], got, [k.tag for k in want.items]), f, w)
     n_rows += 1
     st, got, w = judge(script_eval(prog, "set_many", (b"STORED",), nkeys=2, full=True), "noret", None)
     settle(r3, st, "Client.set_many(2 keys): one reply only -> no result", "Client.set_many:replies:short", "Client.set_many %s after one reply line for two commands" % got, f, w)
@@ -512,7 +522,7 @@ def run(chk):
         if m.name in spec.VALID_FIRST_REPLY:
             prefixes.append(spec.VALID_FIRST_REPLY[m.name])
         probe = script_eval(prog, m.name, (), full=True)
-        if probe.of("ret") and not any(s_.get("imprecise", 0) for s_, v, t in probe.of("ret")):
+        if probe.of("ret") and not any(s_.get("#imprecise", 0) for s_, v, t in probe.of("ret")):
             continue  # the method returns without reading any reply (quit)
         n_meth += 1
         for pre in prefixes:
